@@ -112,6 +112,8 @@ def run(ctx):
                     if until is not None and n == 3:
                         continue
                     cases.append(("distinct", combo, until))
+        for combo in (("missing",), ("dir",), ("dfull", "missing"), ("missing", "dfull"), ("dhead", "dir")):
+            cases.append(("distinct", combo, None))
         # header row + limit: first broken physical row k = 2..6 x --until 0..7 (single files and pairs)
         for until in [None, -1] + list(range(0, 8)):
             for k in sorted(HEADER_FILES):
